@@ -5,11 +5,11 @@ CONSTANTS
   Progs <- MCProgs
   PMSet <- MCPMSet
   FaultKinds = {}
-  Family = "prepared"
+  Family = "smoke"
   Roles = {"server", "client"}
   PmceSet = {FALSE, TRUE}
   PoolSet = {FALSE, TRUE}
-  Quick = FALSE
+  Quick = TRUE
 CONSTRAINT Emit
 INVARIANTS InvRefines InvWire InvCloseLast InvFailStop InvPool
 CHECK_DEADLOCK FALSE
